@@ -226,6 +226,9 @@ def cases(tier):
         out.append(dict(kind='formulas', bodies=[list_of(b) for b in bodies[i:i + 40]]))
     out.append(dict(kind='probes'))
     out.append(dict(kind='case'))
+    for name in sorted(PYMATH):
+        out.append(dict(kind='pymath', name=name))
+    out.append(dict(kind='magnitudes'))
     for i in range(0, len(defs), max(1, len(defs) // 40)):
         out.append(dict(kind='formatting', d=defs[i], seed=i))
     return out
@@ -469,6 +472,83 @@ CASE_MODELS = [
 ]
 
 
+# pymath.NAME is documented as Python's math.NAME: every function x arguments of either sign / mixed signs / integer-valued arguments
+PYMATH = {n: 1 for n in ('ceil', 'fabs', 'floor', 'trunc', 'exp', 'log1p', 'log10', 'sqrt', 'acos', 'atan', 'cos', 'sin', 'tan', 'radians', 'degrees',
+                         'acosh', 'asinh', 'atanh', 'cosh', 'sinh', 'tanh', 'log')}
+PYMATH.update({n: 2 for n in ('copysign', 'fmod', 'pow', 'atan2', 'hypot')})
+PYMATH.update({'log/2': 2, 'fsum': 3})
+
+
+def run_pymath(case):
+    import math
+    name = case['name']
+    fn_name = name.split('/')[0]
+    arity = PYMATH[name]
+    a1 = ['r - p1', 'p1 - r', '(r - p1) * p2', 'r * p2', 'r', 'p1 * p2']
+    a2 = ['p2', '-p2', 'r + p2', 'p1 - r - p2']
+    combos = [(x,) for x in a1] if arity == 1 else ([(x, y) for x in a1 for y in a2] if arity == 2 else [(x, y, z) for x in a1[:3] for y in a2[:2] for z in a1[3:]])
+    forms, pairs = ['[Potential-Form]'], []
+    for i, args in enumerate(combos):
+        forms.append('w%d(r, p1, p2) = 1.0 + pymath.%s(%s)' % (i, fn_name, ', '.join(args)))
+        pairs.append('W%d-Q : >=0 w%d 1.3 0.45' % (i, i))
+    text = '[Tabulation]\ntarget : LAMMPS\nnr : 3\ncutoff : 2.0\n\n[Pair]\n' + '\n'.join(pairs) + '\n\n' + '\n'.join(forms) + '\n'
+    pots = {p.speciesA: p for p in R.config_read(text).potentials}
+    viol, n = [], 0
+    ref = getattr(math, fn_name)
+    for i, args in enumerate(combos):
+        for r in RS:
+            env = dict(r=r, p1=1.3, p2=0.45)
+            try:
+                want = 1.0 + ref(*[eval(a, {}, env) for a in args]) if fn_name != 'fsum' else 1.0 + math.fsum([eval(a, {}, env) for a in args])
+            except (ValueError, OverflowError, ZeroDivisionError):
+                continue                        # outside the function's domain: nothing is documented
+            # discontinuous functions (fmod, floor, ceil, trunc, copysign): skip arguments within rounding distance of a jump
+            try:
+                vals = [eval(a, {}, env) for a in args]
+                near = [ref(*[v * (1 + s_ * 1e-12) + s_ * 1e-13 for v in vals]) if fn_name != 'fsum' else 0.0 for s_ in (-1, 1)]
+                if any(abs(1.0 + q - want) > 1e-9 * (abs(want) + 1.0) for q in near):
+                    continue
+            except (ValueError, OverflowError, ZeroDivisionError):
+                continue
+            n += 1
+            try:
+                got = pots['W%d' % i].energy(r)
+            except Exception as e:  # noqa
+                viol.append(dict(sig='pymath-raises:%s' % fn_name, msg='pymath.%s(%s) at r=%r (p1=1.3, p2=0.45) raised %s: %s; math.%s gives %r' % (fn_name, ', '.join(args), r, type(e).__name__, e, fn_name, want - 1.0), detail={}))
+                break
+            if not abs(got - want) <= 1e-12 * (abs(want) + 1.0):
+                viol.append(dict(sig='pymath-value:%s' % fn_name, msg='pymath.%s(%s) at r=%r (p1=1.3, p2=0.45) gives %r, math.%s gives %r' % (fn_name, ', '.join(args), r, got - 1.0, fn_name, want - 1.0), detail={}))
+                break
+        if viol:
+            break
+    return viol, n
+
+
+def run_magnitudes(case):
+    """formulas whose values are very small or very large (SI units, rescaled helper forms): the potential is the formula, not a rounded version of it"""
+    import math
+    forms = ['[Potential-Form]', 'decay(r, k) = exp(-k*r)']
+    pairs, fns = [], []
+    for i, (scale, txt) in enumerate(((1e-20, '1e-20'), (1.6e-19, '1.6e-19'), (3e-30, '3e-30'), (1e-300, '1e-300'), (2.5e15, '2.5e15'), (1e200, '1e200'))):
+        forms.append('m%d(r, A) = A * %s * decay(r, 1.1)' % (i, txt))
+        forms.append('n%d(r, A) = A * decay(r, 1.1) * %s - %s * 0.25' % (i, txt, txt))
+        pairs += ['M%d-Q : >=0 m%d 0.7' % (i, i), 'N%d-Q : >=0 sum(n%d 0.7, n%d 0.1)' % (i, i, i)]
+        fns += [('M%d' % i, lambda r, s=scale: 0.7 * s * math.exp(-1.1 * r)), ('N%d' % i, lambda r, s=scale: 0.8 * math.exp(-1.1 * r) * s - 2 * s * 0.25)]
+    text = '[Tabulation]\ntarget : LAMMPS\nnr : 3\ncutoff : 2.0\n\n[Pair]\n' + '\n'.join(pairs) + '\n\n' + '\n'.join(forms) + '\n'
+    pots = {p.speciesA: p for p in R.config_read(text).potentials}
+    viol, n = [], 0
+    for name, fn in fns:
+        for r in RS:
+            n += 1
+            got, want = pots[name].energy(r), fn(r)
+            if not abs(got - want) <= 1e-11 * abs(want):
+                viol.append(dict(sig='formula-magnitude', msg='formula of magnitude %.1e at r=%r evaluates to %r, the formula gives %r' % (abs(want), r, got, want), detail={}))
+                break
+        if viol:
+            break
+    return viol, n
+
+
 def run_case_variants(case):
     """names that differ only in case: the formula language is case-insensitive, so such a model must either evaluate to its
     documented meaning or be refused as a configuration error - never tabulate a different function"""
@@ -571,5 +651,5 @@ def run_formatting(case):
 
 
 def run_case(case):
-    viol, n = dict(defs=run_defs, formulas=run_formulas, probes=run_probes, formatting=run_formatting, case=run_case_variants)[case['kind']](case)
+    viol, n = dict(defs=run_defs, formulas=run_formulas, probes=run_probes, formatting=run_formatting, case=run_case_variants, pymath=run_pymath, magnitudes=run_magnitudes)[case['kind']](case)
     return dict(outcome='ok:%s:%s' % (case['kind'], case.get('section', '')) if not viol else 'violation', nontrivial=True, evals=max(1, n), violations=viol)
